@@ -121,6 +121,9 @@ Verdict(ev) ==
             IF ~ev.ok2 THEN "removeinc-refused"
             ELSE IF ev.r2.payable # ev.r.twt THEN "removeinc-payable"
             ELSE IF ev.r2.payable # AAdd(ev.r2.twt, OptVal(ev.rounding_after, ev.d.cd)) THEN "removeinc-rounding"
+            \* what is still due follows the payable amount, whichever entry point produced it (under the currency
+            \* rule the presented figures add up exactly; under the precise rule each is rounded from a finer one)
+            ELSE IF ev.d.rr = "currency" /\ Has(ev.r2.advance) /\ ev.r2.due # <<ASub(ev.r2.payable, Val(ev.r2.advance))>> THEN "removeinc-due"
             ELSE "ok"
 
 Step == /\ i <= Len(Trace)
